@@ -400,6 +400,10 @@ func c17(c *Ctx) {
 	if nSt == 0 {
 		r.Unk("R-C17.5", "registry stores", "", "no store into the sub-listener registry found")
 	}
+	// R-C17.6: what the base listener hands over (C02's rule on Accept, evaluated here too)
+	r.Rule("R-C02.5", "InterceptingListener.Accept returns a connection only after a successful handshake and never on the fetch protocol (C02's rule, evaluated here: the split listener relies on it)")
+	c02Accept(c)
+
 	// panic sites of the net package (nothing panics)
 	for _, fn := range p.ModuleFuncs() {
 		if fn.Pkg == nil && fn.Parent() == nil {
